@@ -104,6 +104,10 @@ def run(ctx: Ctx) -> None:
                            f"{key}: the done path does not simply return", p.labels())
             elif _seq_wrong(facts, k):
                 nwrong += 1
+                if not _not_done(facts):
+                    r.viol(f"{key}|raise-when-done", f.loc(p.term_node or f.node),
+                           f"{key}: the sequencing error is raised without having established that the program is not done: "
+                           "a call after completion must be a no-op, not an error", p.labels())
                 exc = p.term_node.exc if p.term == "raise" and isinstance(p.term_node, ast.Raise) else None
                 cls = m.resolve_class(f.module, exc.func) if isinstance(exc, ast.Call) else None
                 if cls is None or cls.name != "StepSequenceError":
